@@ -384,7 +384,9 @@ impl Sut {
                 }
                 StepObs {
                     emitted: Some(out.as_ref().map(DD::of)),
-                    current: g.as_ref().unwrap().clone().generate().as_ref().map(DD::of),
+                    // reading the current drawdown is a READ: it is done on the live generator after every point (as
+                    // every periodic report does) and must not disturb what is reported later
+                    current: g.as_mut().unwrap().generate().as_ref().map(DD::of),
                     max: maxg.as_ref().and_then(|m| m.generate()).map(|m| DD::of(&m.0)),
                     mean: meang.as_ref().and_then(|m| m.generate()).map(|m| (m.mean_drawdown, m.mean_drawdown_ms)),
                 }
@@ -402,10 +404,10 @@ impl Sut {
                 if restore_now(p) {
                     *g = g.as_ref().map(restored);
                 }
-                let tsg = g.as_ref().unwrap();
+                let tsg = g.as_mut().unwrap();
                 StepObs {
                     emitted: None,
-                    current: tsg.drawdown.clone().generate().as_ref().map(DD::of),
+                    current: tsg.drawdown.generate().as_ref().map(DD::of),
                     max: tsg.drawdown_max.generate().map(|m| DD::of(&m.0)),
                     mean: tsg.drawdown_mean.generate().map(|m| (m.mean_drawdown, m.mean_drawdown_ms)),
                 }
@@ -432,7 +434,7 @@ impl Sut {
                 }
                 StepObs {
                     emitted: None,
-                    current: tsg.pnl_drawdown.clone().generate().as_ref().map(DD::of),
+                    current: tsg.pnl_drawdown.generate().as_ref().map(DD::of),
                     max: tsg.pnl_drawdown_max.generate().map(|m| DD::of(&m.0)),
                     mean: tsg.pnl_drawdown_mean.generate().map(|m| (m.mean_drawdown, m.mean_drawdown_ms)),
                 }
